@@ -501,12 +501,70 @@ fn setter_histories(acc: &mut Acc) {
     for i in 0..NF {
         let mut vals: Vec<i64> = vec![-1, 0, 1, 2, 4, 5, 6, 7, 11, 12, 13, 23, 24, 31, 32, 52, 53, 54, 59, 60, 61, 99, 100, 365, 366, 367, 999_999_999, 1_000_000_000, 2024, -2024, 86399, 86400];
         vals.extend(lat_i64().into_iter().step_by(3));
+        // alias classes of in-domain values under a narrowing cast inside a setter
+        for v in [0i64, 1, 4, 12, 31, 53, 59, 60, 366, 999_999_999, 2024] {
+            for w in [1i64 << 8, 1 << 16, 1 << 32, 1 << 33, -(1 << 32), 1 << 31, -(1 << 31)] {
+                vals.push(v + w);
+            }
+        }
         vals.sort();
         vals.dedup();
         for &a in &vals {
             let mut p = Parsed::new();
             let ra = set_field(&mut p, i, a);
             acc.transitions += 1;
+            // the documented domain of every field
+            let in_domain = match i {
+                F_YEAR | F_IY | F_OFF => a >= i32::MIN as i64 && a <= i32::MAX as i64,
+                F_YDIV | F_IYDIV => (0..=i32::MAX as i64).contains(&a),
+                F_YMOD | F_IYMOD => (0..=99).contains(&a),
+                F_Q => (1..=4).contains(&a),
+                F_MONTH => (1..=12).contains(&a),
+                F_WSUN | F_WMON => (0..=53).contains(&a),
+                F_IW => (1..=53).contains(&a),
+                F_WD => (0..=6).contains(&a),
+                F_ORD => (1..=366).contains(&a),
+                F_DAY => (1..=31).contains(&a),
+                F_AMPM => a == 0 || a == 1,
+                F_H12 => (1..=12).contains(&a),
+                F_MIN => (0..=59).contains(&a),
+                F_SEC => (0..=60).contains(&a),
+                F_NANO => (0..=999_999_999).contains(&a),
+                _ => true,
+            };
+            if ra.is_ok() != in_domain {
+                acc.violation(&format!("Parsed::set_{}:domain", NAMES[i]), format!("Parsed::new().set_{}({})", NAMES[i], a), if in_domain { "Ok".into() } else { "Err(OutOfRange)".to_string() }, format!("{:?}", ra));
+                continue;
+            }
+            if ra.is_ok() {
+                // the stored value is the supplied one
+                let stored: Option<i64> = match i {
+                    F_YEAR => p.year().map(|x| x as i64),
+                    F_YDIV => p.year_div_100().map(|x| x as i64),
+                    F_YMOD => p.year_mod_100().map(|x| x as i64),
+                    F_IY => p.isoyear().map(|x| x as i64),
+                    F_IYDIV => p.isoyear_div_100().map(|x| x as i64),
+                    F_IYMOD => p.isoyear_mod_100().map(|x| x as i64),
+                    F_Q => p.quarter().map(|x| x as i64),
+                    F_MONTH => p.month().map(|x| x as i64),
+                    F_WSUN => p.week_from_sun().map(|x| x as i64),
+                    F_WMON => p.week_from_mon().map(|x| x as i64),
+                    F_IW => p.isoweek().map(|x| x as i64),
+                    F_WD => p.weekday().map(|w| w.num_days_from_monday() as i64),
+                    F_ORD => p.ordinal().map(|x| x as i64),
+                    F_DAY => p.day().map(|x| x as i64),
+                    F_AMPM => p.hour_div_12().map(|x| x as i64),
+                    F_H12 => p.hour_mod_12().map(|x| if x == 0 { 12 } else { x as i64 }),
+                    F_MIN => p.minute().map(|x| x as i64),
+                    F_SEC => p.second().map(|x| x as i64),
+                    F_NANO => p.nanosecond().map(|x| x as i64),
+                    F_TS => p.timestamp(),
+                    _ => p.offset().map(|x| x as i64),
+                };
+                if stored != Some(a) {
+                    acc.violation(&format!("Parsed::set_{}:stored", NAMES[i]), format!("Parsed::new().set_{}({}) then the accessor", NAMES[i], a), format!("Some({})", a), format!("{:?}", stored));
+                }
+            }
             if ra.is_err() {
                 acc.hit_nt(SET_OOR);
                 // a rejected value leaves the field unset: any value can still be set
